@@ -16,6 +16,7 @@ import (
 	"os"
 	"path/filepath"
 	"strconv"
+	"strings"
 	"time"
 
 	"github.com/aergoio/aergo-lib/db"
@@ -243,7 +244,15 @@ func crashOnce(ctx *xplor.Ctx, net nk.Net, sc scen, g *golden, st *nk.Stores, cp
 	fb := n.Best()
 	gf := g.t.ByID[g.final]
 	if b, ok := g.t.ByID[fb.ID()]; !ok || b.Height != gf.Height {
-		return fmt.Sprintf("after recovery and re-delivery best is block %d, the uncrashed run ends at block %d", idx(g, fb.ID()), gf.Idx), rec
+		m := fmt.Sprintf("after recovery and re-delivery best is block %d, the uncrashed run ends at block %d", idx(g, fb.ID()), gf.Idx)
+		if b, ok := g.t.ByID[fb.ID()]; ok && b.Height < gf.Height {
+			if _, err := n.CS.VerifGetBlock(gf.Block.BlockHash()); err == nil {
+				// the longer branch is completely stored (as a side branch) but re-delivered blocks are
+				// dropped as "already connected", so the reorganisation is never attempted again
+				return "F20|" + m + " although that block is stored", rec
+			}
+		}
+		return m, rec
 	}
 	d, err := n.DumpState(n.CS.SDB().GetRoot())
 	if err != nil {
@@ -333,7 +342,11 @@ func runScenario(ctx *xplor.Ctx, net nk.Net, sc scen, only *replay) {
 			ctx.Count("torn_bulk_points", 1)
 		}
 		if msg != "" && (only == nil || only.Inner < 0) {
-			ctx.Violation("", fmt.Sprintf("%v order %v crash after %d units+%d ops of %d: %s", sc.Tree, sc.Order, cp.Units, cp.Partial, len(g.journal), msg), replay{sc, cp, -1})
+			sig := ""
+			if strings.HasPrefix(msg, "F20|") {
+				sig, msg = "F20", msg[4:]
+			}
+			ctx.Violation(sig, fmt.Sprintf("%v order %v crash after %d units+%d ops of %d: %s", sc.Tree, sc.Order, cp.Units, cp.Partial, len(g.journal), msg), replay{sc, cp, -1})
 			continue
 		}
 		ctx.Distinct(xplor.Hash(fmt.Sprint(sc), cp.Units, cp.Partial))
@@ -352,7 +365,11 @@ func runScenario(ctx *xplor.Ctx, net nk.Net, sc scen, only *replay) {
 				ctx.Eval(1)
 				ctx.Count("crash_in_recovery_points", 1)
 				if msg != "" {
-					ctx.Violation("", fmt.Sprintf("%v order %v crash after %d units+%d ops, then a second crash after %d+%d units of the recovery: %s", sc.Tree, sc.Order, cp.Units, cp.Partial, ip.Units, ip.Partial, msg), replay{sc, cp, ii})
+					sig := ""
+					if strings.HasPrefix(msg, "F20|") {
+						sig, msg = "F20", msg[4:]
+					}
+					ctx.Violation(sig, fmt.Sprintf("%v order %v crash after %d units+%d ops, then a second crash after %d+%d units of the recovery: %s", sc.Tree, sc.Order, cp.Units, cp.Partial, ip.Units, ip.Partial, msg), replay{sc, cp, ii})
 				}
 			}
 		}
